@@ -38,8 +38,10 @@ def run(ctx, rep):
     # definitions: function-level single defs + loop-body assignments
     defs = dict(single_defs(f))
     body_defs = {}
+    from ..astutil import mutated_names
+    grown = mutated_names(f.node)
     for st in loop.body:
-        if isinstance(st, ast.Assign) and len(st.targets) == 1 and isinstance(st.targets[0], ast.Name):
+        if isinstance(st, ast.Assign) and len(st.targets) == 1 and isinstance(st.targets[0], ast.Name) and st.targets[0].id not in grown:
             body_defs[st.targets[0].id] = st.value
     defs.update(body_defs)
     appended = [n for n in ast.walk(loop) if isinstance(n, ast.Call) and isinstance(n.func, ast.Attribute) and n.func.attr == "append"
@@ -149,6 +151,8 @@ def _is_call(e, suffix):
 
 
 def _check_normal_equations(rep, f, site, v, lv):
+    from ..astutil import mutated_names
+    grown = mutated_names(f.node)
     A_TXT = "qtomography.calc_matA()"
     B_TXT = "qtomography.calc_vecB()"
     facs = product_nodes(v)
@@ -185,6 +189,8 @@ def _check_normal_equations(rep, f, site, v, lv):
             and isinstance(stack.args[0], (ast.ListComp, ast.GeneratorExp)) and len(stack.args[0].generators) == 1
         if ok_stack and (dotted(stack.func) or "").split(".")[-1] in ("vstack", "array") and order != "C":
             ok_stack = False
+        if isinstance(stack, ast.Call) and stack.args and isinstance(stack.args[0], ast.Name) and stack.args[0].id in grown:
+            return False, "data vector %s stacks a list that is filled step by step" % pos      # -> undecided
         if not ok_stack:
             return False, "data vector is %s, expected the stacked distributions of the current dataset" % pos
         comp = stack.args[0]
